@@ -187,23 +187,68 @@ Proof.
 Qed.
 
 (* ---- reader 3: SaxDocument ---- *)
-Lemma sax_paths inherited (l : list dict) :
-  flat_map (sax_values inherited) (map (fun a => XE SVGNS "path" a []) l)
-  = map (update inherited) l.
-Proof. induction l as [|a r IH]; cbn; [reflexivity|]. cbn in IH. rewrite IH. reflexivity. Qed.
+Lemma update_nil_r d : update d [] = d.
+Proof.
+  unfold update. cbn [app]. induction d as [|kv r IH]; [reflexivity|].
+  cbn [filter lookup]. f_equal. exact IH.
+Qed.
 
-Theorem wsvg_sax ds attrs sa size :
+Definition nostyle (a : dict) : Prop := lookup "style" a = None.
+
+Lemma style_entries_nostyle c a : nostyle a -> style_entries c a = Some [].
+Proof. unfold nostyle, style_entries. intros ->. reflexivity. Qed.
+
+Lemma path_attrs_nostyle d a : nostyle a -> nostyle (path_attrs d a).
+Proof.
+  unfold nostyle, path_attrs. intros H.
+  rewrite lookup_update_miss.
+  - reflexivity.
+  - rewrite lookup_remove_other by discriminate. exact H.
+Qed.
+
+Lemma written_nostyle ds : forall attrs, Forall nostyle attrs -> Forall nostyle (written ds attrs).
+Proof.
+  induction ds as [|d dr IH]; intros [|a ar] H.
+  - rewrite written_nil_l. constructor.
+  - rewrite written_nil_l. constructor.
+  - rewrite written_nil_r. constructor.
+  - inversion H; subst. rewrite written_cons. constructor; [apply path_attrs_nostyle; assumption|auto].
+Qed.
+
+Lemma sax_paths c inherited (l : list dict) :
+  Forall nostyle l ->
+  flat_map (sax_values c inherited) (map (fun a => XE SVGNS "path" a []) l)
+  = map (fun w => Some (update inherited w)) l.
+Proof.
+  induction 1 as [|a r Ha Hr IH]; [reflexivity|].
+  cbn [map flat_map sax_values]. rewrite (style_entries_nostyle c a Ha), update_nil_r.
+  cbn [sax_name x_ns x_local]. cbn. cbn in IH. rewrite IH. reflexivity.
+Qed.
+
+Theorem wsvg_sax c ds attrs sa size :
   length attrs = length ds ->
+  nostyle sa -> nostyle size -> Forall nostyle attrs ->
   exists root_values,
-    sax_read (wsvg_file ds attrs sa size) = (ds, map (update root_values) (written ds attrs))
-    /\ sax_root_values (wsvg_file ds attrs sa size) = root_values
+    sax_read c (wsvg_file ds attrs sa size) = Some (ds, map (update root_values) (written ds attrs))
+    /\ sax_root_values c (wsvg_file ds attrs sa size) = root_values
     /\ forall k v, lookup k sa = Some v -> lookup k root_values = Some v.
 Proof.
-  intros H. eexists. split; [|split].
+  intros H Hsa Hsz Hat.
+  assert (HR : nostyle (update (update svgwrite_defaults size) sa)).
+  { unfold nostyle in *. rewrite lookup_update_miss by exact Hsa.
+    rewrite lookup_update_miss by exact Hsz. reflexivity. }
+  exists (update [] (update (update svgwrite_defaults size) sa)). split; [|split].
   - unfold sax_read, wsvg_file. cbn [et_parse map].
     rewrite zip_paths_written, parse_paths.
-    cbn [sax_values sax_name x_ns x_local]. cbn [String.eqb]. cbn.
-    rewrite sax_paths. f_equal.
+    cbn [sax_values]. rewrite (style_entries_nostyle c _ HR), update_nil_r.
+    cbn [sax_name x_ns x_local]. cbn [String.eqb]. cbn [flat_map].
+    replace (sax_values c (update [] (update (update svgwrite_defaults size) sa)) (XE SVGNS "defs" [] []))
+      with (@nil (option dict)) by reflexivity.
+    cbn [app].
+    match goal with |- context [if ?b then _ else _] => replace b with false by reflexivity end.
+    cbn [app].
+    rewrite (sax_paths c _ _ (written_nostyle ds attrs Hat)).
+    rewrite <- (map_map (update _) Some), all_some_map_Some. f_equal. f_equal.
     assert (E : forall rv (l : list dict), map (lookup "d") l = map Some ds ->
                 map (fun a => match lookup "d" a with Some d => d | None => "" end)
                     (map (update rv) l) = ds).
@@ -211,6 +256,21 @@ Proof.
         try reflexivity; try discriminate.
       inversion E as [[E1 E2]]. rewrite (lookup_update_other _ _ _ _ E1). f_equal. apply IH. exact E2. }
     apply E, written_d, H.
-  - unfold sax_root_values, wsvg_file. cbn. reflexivity.
-  - intros k v Hk. cbn beta. apply lookup_update_other. apply lookup_update_other. exact Hk.
+  - unfold sax_root_values, wsvg_file. cbn [et_parse].
+    rewrite (style_entries_nostyle c _ HR), update_nil_r. reflexivity.
+  - intros k v Hk. apply lookup_update_other. apply lookup_update_other. exact Hk.
+Qed.
+
+(* ---- the style attribute ---- *)
+(* repaired: splitting the style attribute never raises *)
+Lemma style_assign_total c : f_style_skip c = true ->
+  forall decls acc, exists r, style_assign c decls acc = Some r.
+Proof.
+  intros Hc. induction decls as [|e r IH]; intros acc; cbn [style_assign]; [eauto|].
+  destruct (split_on ":" e) as [|k [|v t]]; rewrite ?Hc; apply IH.
+Qed.
+Theorem style_entries_total c a : f_style_skip c = true -> exists r, style_entries c a = Some r.
+Proof.
+  intros Hc. unfold style_entries. destruct (lookup "style" a); [|eauto].
+  apply style_assign_total, Hc.
 Qed.
